@@ -93,6 +93,12 @@ def gen_merge(tier, rng):
         elif mode == "overlap" and recs:
             a0 = recs[0][0]
             recs.append((a0 + rng.choice([0, 1, 47]), 48))
+        if k % 9 == 4 and size >= 240:
+            # reserved sizes above 48: records whose reserved ranges overlap only in the 0xFF padding of the lower one still overlap (C12-o)
+            mode = "overlap-padding"
+            big = rng.choice([100, 120, 128])
+            recs = [(address, big), (address + rng.choice([48, 64, big - 1]), big)]
+            rng.shuffle(recs)
         yield (address, size, recs, mode)
 
 
@@ -176,7 +182,10 @@ def run(tier: str, seed: int) -> int:
             images = []
             for j, (a, sz) in enumerate(recs):
                 if sz >= 48:
-                    r = impl_generate("nordicsemi.com", f"class{j}", a, sz, j % 2 == 0, j % 3 == 0, [None, "update", "update-and-boot"][j % 3], d)
+                    # every fourth set: the same record (names, policies, reserved size) provisioned in several slots - equal contents at different
+                    # addresses are different inputs (C12-p)
+                    jj = 0 if i % 4 == 1 else j
+                    r = impl_generate("nordicsemi.com", f"class{jj}", a, sz, jj % 2 == 0, jj % 3 == 0, [None, "update", "update-and-boot"][jj % 3], d)
                     if "ok" not in r:
                         res.spec_failures.append({"request": {"vendor": "nordicsemi.com", "class": f"class{j}", "address": a, "size": sz}, "impl": r,
                                                   "what": "mpi generate failed on a valid request (while preparing the inputs of a merge)"})
